@@ -50,6 +50,7 @@ func reread(c Case, q ix.Querier, data []byte) (ix.Querier, error) {
 
 // complete checks every query of qs against the brute-force oracle.
 func complete(c Case, q ix.Querier, layout []bgzf.Chunk, qs []ix.Query, stage string, rec *h.Rec) bool {
+	var kept []keptAnswer
 	for _, qu := range qs {
 		var ans []bgzf.Chunk
 		var err error
@@ -69,8 +70,21 @@ func complete(c Case, q ix.Querier, layout []bgzf.Chunk, qs []ix.Query, stage st
 			rec.Failf("%s %s: Chunks(ref %d, [%d,%d)) = %v does not cover record %d = %+v stored at %+v", c.Kind, stage, qu.Ref, qu.Beg, qu.End, ans, i, c.S.Recs[i], layout[i])
 			return false
 		}
+		kept = append(kept, keptAnswer{qu, ans})
+	}
+	// an answer belongs to the caller: it is still right after later queries
+	for _, k := range kept {
+		if i := c.S.Missing(k.qu, layout, k.ans); i >= 0 {
+			rec.Failf("%s %s: the answer to Chunks(ref %d, [%d,%d)) covered its records when it was returned, but after later queries it reads %v and no longer covers record %d = %+v", c.Kind, stage, k.qu.Ref, k.qu.Beg, k.qu.End, k.ans, i, c.S.Recs[i])
+			return false
+		}
 	}
 	return true
+}
+
+type keptAnswer struct {
+	qu  ix.Query
+	ans []bgzf.Chunk
 }
 
 func run(c Case, rec *h.Rec) {
